@@ -40,6 +40,7 @@ From stdpp Require Import gmap.
 From Vivid Require Import Codec.Prim Codec.MsgPrim Cluster.VV Codec.ClusterMsgs Codec.Msgs Codec.MsgsWitnesses
   Remoting.Frame Codec.Envelope Remoting.Transparency Remoting.TransparencyProofs.
 From Vivid Require Actor.Core.
+From Vivid Require Remoting.Churn Remoting.ChurnProofs.
 Local Open Scope N_scope.
 
 (** * the transparency theorem *)
@@ -416,6 +417,39 @@ Qed.
 Example C15_ex_table : (fun p : bytes => if bytes_eqb p [47; 119; 47; 102] then Some 7%nat else None) [47; 119; 47; 102] = Some 7%nat.
 Proof. reflexivity. Qed.
 
+(** * name reuse on the target system (model: Remoting/Churn.v, shared with C11)
+    HandleRemotingEnvelop builds a fresh receiver ref for EVERY inbound envelope and resolves it against the table
+    of live contexts at arrival time.  In a history of spawn / kill / restart steps of the target system interleaved
+    with inbound traffic, the routing of the envelopes of a phase (to the incarnation registered at the path then, or
+    to the dead letters) is a function of the registry changes before it alone: two histories that differ only in
+    the envelopes received earlier - how many, to which path, to which earlier incarnation - route the phase
+    identically.  In particular nothing an earlier envelope resolved to is remembered (a remote reference keeps
+    behaving like the local one after the actor was re-created under the same name). *)
+Theorem C15_routing_history_independent :
+  forall (D : Type) (dec : bytes -> option D) (rpath : D -> bytes)
+         (pre1 pre2 : list Churn.step) (chunks : list bytes) (r : list (bytes * Churn.inst)),
+    Churn.strip_traffic pre1 = Churn.strip_traffic pre2 ->
+    exists routed,
+      routed = map (Churn.dispatch rpath (Churn.reg_after (Churn.strip_traffic pre1) r)) (delivered (receive dec chunks)) /\
+      Churn.run_churn dec rpath (pre1 ++ [Churn.STraffic chunks]) r = Churn.run_churn dec rpath pre1 r ++ routed /\
+      Churn.run_churn dec rpath (pre2 ++ [Churn.STraffic chunks]) r = Churn.run_churn dec rpath pre2 r ++ routed.
+Proof. exact (@ChurnProofs.routing_history_independent). Qed.
+
+(** the incarnation a remote operation reaches after "kill P; spawn P as i" is i, whatever was sent to P before *)
+Theorem C15_respawned_registered :
+  forall (p : bytes) (i : N) (r : list (bytes * Churn.inst)),
+    Churn.lookup p (Churn.reg_after [Churn.SKill p; Churn.SSpawn p i] r) = Some {| Churn.i_inc := i; Churn.i_epoch := 0 |}.
+Proof. exact ChurnProofs.lookup_respawn. Qed.
+
+(** non-vacuity: two histories of the path [47] that differ in the traffic received by incarnation 1 *)
+Example C15_ex_history :
+  Churn.strip_traffic [Churn.SSpawn [47] 1; Churn.STraffic [[0; 0; 0; 1; 7]]; Churn.SKill [47]; Churn.SSpawn [47] 2] =
+  Churn.strip_traffic [Churn.SSpawn [47] 1; Churn.SKill [47]; Churn.SSpawn [47] 2] /\
+  Churn.run_churn (fun b => Some b) (fun _ : bytes => [47])
+    ([Churn.SSpawn [47] 1; Churn.STraffic [[0; 0; 0; 1; 7]]; Churn.SKill [47]; Churn.SSpawn [47] 2] ++ [Churn.STraffic [[0; 0; 0; 1; 8]]]) [] =
+  [Churn.ODeliver [47] {| Churn.i_inc := 1; Churn.i_epoch := 0 |} [7]; Churn.ODeliver [47] {| Churn.i_inc := 2; Churn.i_epoch := 0 |} [8]].
+Proof. split; reflexivity. Qed.
+
 Print Assumptions C15_transparent.
 Print Assumptions C15_localized.
 Print Assumptions C15_localized_canonical.
@@ -448,3 +482,5 @@ Print Assumptions C15_deliver_sender_irrelevant.
 Print Assumptions C15_resolve_obj_fresh_agree.
 Print Assumptions C15_resolve_identity_witness.
 Print Assumptions C15_onkilled_fresh_keeps_children.
+Print Assumptions C15_routing_history_independent.
+Print Assumptions C15_respawned_registered.
